@@ -120,6 +120,17 @@ impl DepsGraph {
         }
     }
 
+    /// Stops reloading an asset that was removed from the cache.
+    ///
+    /// The node stays in the graph (and keeps its dependencies) so that the
+    /// assets that depend on it are still reloaded when it changes.
+    pub fn remove_asset(&mut self, asset_key: OwnedKey) {
+        let key = BorrowedDependency::Asset(&asset_key);
+        if let Some(node) = self.0.get_mut(&key as &dyn Key) {
+            node.typ = None;
+        }
+    }
+
     pub fn topological_sort_from<'a>(
         &self,
         iter: impl IntoIterator<Item = &'a OwnedDirEntry>,
